@@ -123,6 +123,7 @@ func fenceReplay(args []string) int {
 	var examples []fence.Mismatch
 	var nmism int64
 	var firstErr error
+	halted := false // a fence has gone silent: the remaining behaviours are not run (every further one would wait 3 minutes)
 	var wg sync.WaitGroup
 	for w := 0; w < *par; w++ {
 		wg.Add(1)
@@ -144,7 +145,7 @@ func fenceReplay(args []string) int {
 			st := fence.NewStats()
 			for j := range jobs {
 				mu.Lock()
-				stop := firstErr != nil
+				stop := firstErr != nil || halted
 				mu.Unlock()
 				if stop {
 					continue
@@ -178,6 +179,9 @@ func fenceReplay(args []string) int {
 					err = nil
 					r.Close()
 					r = nil
+					mu.Lock()
+					halted = true
+					mu.Unlock()
 				}
 				if len(ms) > 0 {
 					atomic.AddInt64(&nmism, int64(len(ms)))
